@@ -327,7 +327,7 @@ def handshake_sock(**kw):
     return sock
 
 
-PRELUDES = ["fresh", "connected", "reused", "reused-midmessage", "reused-midframe", "after-send_close", "mid-own-message", "created"]
+PRELUDES = ["fresh", "connected", "reused", "reused-midmessage", "reused-midframe", "after-send_close", "mid-own-message", "created", "reused-eof-midmessage", "reused-eof-midframe"]
 
 
 def prepared_ws(prelude, **kw):
@@ -338,6 +338,8 @@ def prepared_ws(prelude, **kw):
       reused*            the same WebSocket object had an earlier life - connected, used, close()d - and is connected again; in the
                          -midmessage / -midframe variants the first connection was closed while a fragmented message / a frame was
                          incomplete. Nothing of the first life may matter for the second connection.
+      reused-eof-*       as reused-midmessage / -midframe, but the first connection was DROPPED BY THE PEER (end of stream inside the message / the
+                         frame, recv raised connection-closed) and the application simply connects again, without close()
       mid-own-message    the application is in the middle of SENDING a fragmented message of its own (a non-final frame written with
                          send_frame, the final one not yet): receiving is independent of that
       created            the object comes from the module-level entry point create_connection() (its own defaults for every constructor option)
@@ -364,13 +366,22 @@ def prepared_ws(prelude, **kw):
             first.stream += R.encode(R.TEXT, b"y", fin=0)
         elif prelude == "reused-midframe":
             first.stream += R.encode(R.BINARY, bytes(300))[:7]
-        for _ in range(3):
-            try:
-                ws.recv_data_frame(True)
-            except lib.websocket.WebSocketTimeoutException:
-                break
-        first.at_end = "eof"
-        ws.close()
+        if prelude.startswith("reused-eof"):
+            first.stream += R.encode(R.TEXT, b"y", fin=0) if prelude.endswith("midmessage") else R.encode(R.PING, b"hello")[:4]
+            first.at_end = "eof"
+            for _ in range(4):
+                try:
+                    ws.recv_data_frame(True)
+                except lib.websocket.WebSocketConnectionClosedException:
+                    break
+        else:
+            for _ in range(3):
+                try:
+                    ws.recv_data_frame(True)
+                except lib.websocket.WebSocketTimeoutException:
+                    break
+            first.at_end = "eof"
+            ws.close()
     sock = handshake_sock()
     ws.connect("ws://example.com/chat", socket=sock)
     if prelude == "after-send_close":
